@@ -45,6 +45,9 @@ def gen_cases(tier, rnd):
                         # the way kernprof -m finds the file (find_module_script), plain and through a symlinked package
                         disk.append(dict(pcomps=pcomps, stem=stem, level=level, target=target, via_find=True))
                         disk.append(dict(pcomps=pcomps, stem=stem, level=level, target=target, via_find=True, link='pkg'))
+                        # ... and through the whole glue of kernprof.main (the file handed to the auto-profiling runner)
+                        disk.append(dict(pcomps=pcomps, stem=stem, level=level, target=target, via_main=True))
+                        disk.append(dict(pcomps=pcomps, stem=stem, level=level, target=target, via_main=True, link='pkg'))
     return unit, disk
 
 
